@@ -398,6 +398,9 @@ type caseID struct {
 	Fn     string   `json:"fn"`
 	State  string   `json:"state"`
 	Args   []uint64 `json:"args"`
+	// Mem: structured input written on top of the base memory template before the call (structs.go).
+	Mem     []memPatch `json:"mem,omitempty"`
+	Variant string     `json:"variant,omitempty"`
 	// Dirty != 0: the call is made through "dirty:<fn>" with this stack pattern (compared with the clean call).
 	Dirty uint64 `json:"dirty_stack_pattern,omitempty"`
 	// direct != nil (attribution only): the host function is invoked directly with a stack slice in
@@ -708,7 +711,18 @@ func (w *world) runCase(c caseID) (res caseRes) {
 		setupFail("descriptor probe before the call", err)
 		return
 	}
-	in.mem.Write(0, w.tmpl)
+	tmpl := w.tmpl
+	if len(c.Mem) > 0 {
+		tmpl = append([]byte{}, w.tmpl...)
+		for _, mp := range c.Mem {
+			if uint64(mp.Off)+uint64(len(mp.Bytes)) > memSize {
+				res.harness = "memory patch out of range"
+				return
+			}
+			copy(tmpl[mp.Off:], mp.Bytes)
+		}
+	}
+	in.mem.Write(0, tmpl)
 
 	// ---- the call, bracketed by the allocation counter
 	var rs []uint64
@@ -788,16 +802,16 @@ func (w *world) runCase(c caseID) (res caseRes) {
 	// ---- guest memory: every changed byte must lie in a designated output region
 	post, _ := in.mem.Read(0, memSize)
 	var newFd int64 = -1
-	if !bytes.Equal(post, w.tmpl) {
+	if !bytes.Equal(post, tmpl) {
 		res.memChanged, res.nontrivial = true, true
-		spans := allowedSpans(f, c.Args, w.tmpl)
+		spans := allowedSpans(f, c.Args, tmpl)
 		bad, first, last := 0, -1, -1
 		for base := 0; base < memSize; base += 4096 {
-			if bytes.Equal(post[base:base+4096], w.tmpl[base:base+4096]) {
+			if bytes.Equal(post[base:base+4096], tmpl[base:base+4096]) {
 				continue
 			}
 			for i := base; i < base+4096; i++ {
-				if post[i] != w.tmpl[i] && !inSpans(spans, uint64(i)) {
+				if post[i] != tmpl[i] && !inSpans(spans, uint64(i)) {
 					if first < 0 {
 						first = i
 					}
@@ -814,11 +828,11 @@ func (w *world) runCase(c caseID) (res caseRes) {
 		h := fnv.New64a()
 		var rec [5]byte
 		for base := 0; base < memSize; base += 4096 {
-			if bytes.Equal(post[base:base+4096], w.tmpl[base:base+4096]) {
+			if bytes.Equal(post[base:base+4096], tmpl[base:base+4096]) {
 				continue
 			}
 			for i := base; i < base+4096; i++ {
-				if post[i] == w.tmpl[i] {
+				if post[i] == tmpl[i] {
 					continue
 				}
 				for k, sp := range spans {
